@@ -60,7 +60,7 @@ StepQ(op, args, ret)    == Step(op, args, ret, a, b, bl, it, held)      \* a que
 (* program discipline of the modelled caller *)
 Plain   == it = NIL /\ held = 0                   \* no iterator alive, caller holds no argument objects
 NOBOUND == 100000                                  \* BDepth >= NOBOUND: no bound (trace validation; Diff is not evaluated)
-Room    == bl => (BDepth >= NOBOUND \/ Diff(a, b) < BDepth)   \* model bound on how far the two copies drift apart
+Room    == bl => (IF BDepth >= NOBOUND THEN TRUE ELSE Diff(a, b) < BDepth)   \* model bound on how far the two copies drift apart
 CanMutA == Plain /\ Room
 CanMutB == Plain /\ bl /\ Room
 
